@@ -26,6 +26,11 @@ Leg C  (property oracle)
   C3  free-running threads in a fresh subprocess (first-use compilation of the typed kernels happens
       concurrently; tiny switch interval): same comparison.  Support only: real preemption is not
       controlled, so this leg can only add cases, never be the sole witness of a finding.
+Shared state other than the COO caches — the dictionary of a shared DOK array, the process-global warnings
+filters — is the business of harness/c13_shared.py (sentinel, preemption leg, correspondence of the two further
+transition systems of Model/SharedReads.lean); the worlds of C2 / C3 share DOK, GCXS and COO operands (also ones
+that hold explicitly stored fill values) and include calls that merely warn.  Worker threads of this harness
+never touch process-global state themselves.
 """
 from __future__ import annotations
 
@@ -54,6 +59,10 @@ TRUSTED = [
     "tie T2: the traced cooperative scheduler of this file (sys.settrace line events as scheduling points); model and implementation "
     "compared per quantum on the parking line, per call on the outcome, and on the final deque / dict",
     "numba nogil kernels are not modelled: they are assumed to write only into buffers they allocate (C11) and are exercised by legs C2/C3",
+    "CPython's dictionary-iterator rule (dictiter_iternextitem compares di_used with ma_used first) and Lib/warnings.py's catch_warnings / "
+    "simplefilter / filterwarnings / warn as transcribed in Model/SharedReads.lean; validated per quantum against the real interpreter by the rigs of c13_shared.py",
+    "the catalogue of warnings the library can emit: NumPy's floating-point warnings (fixed list in the model) plus every warnings.warn of the package (generated table)",
+    "tools/tables.d/C13.py (ast): the classification of every mention of self.data in class DOK, the filters of every catch_warnings block, the warn sites",
 ]
 SPARSE_DIR = str(Path(core.REPO) / "sparse") + os.sep
 CORE_PY = str(Path(core.REPO) / "sparse" / "numba_backend" / "_coo" / "core.py")
@@ -143,6 +152,8 @@ class Coop:
         self.quanta = []  # (tid, point info it was released from)
         self.arrivals = []  # (tid, point info it parked at | ("done",))
         self.abort = False
+        self.fast = getattr(policy, "fast", None)
+        self.fast_quanta = 0
         self.t_end = time.monotonic() + deadline_s
 
     def _choose(self, last):
@@ -156,6 +167,9 @@ class Coop:
 
     def park(self, tid, info):
         if self.abort:
+            return
+        if self.fast is not None and self.started and self.turn == tid and self.fast(tid):
+            self.fast_quanta += 1  # the policy lets this thread run until it finishes: no hand-over, nothing to record
             return
         with self.cv:
             self.at[tid] = info
@@ -592,17 +606,28 @@ def make_world(seed):
     dB = gen.dense(rng, (5, 3), 0, density=0.6)
     dC = gen.dense(rng, (2, 3, 4), 0, density=0.6)
     dF = gen.dense(rng, (4, 5), 0, density=0.5).astype(np.float64) / 2
+    dF[0, 0] = 0.0
     A, A2, B = sparse.COO.from_numpy(dA), sparse.COO.from_numpy(dA.T.copy().T + 1), sparse.COO.from_numpy(dB)
     C = sparse.COO.from_numpy(dC)
     Cc = sparse.COO.from_numpy(dC)
     Cc.enable_caching()
     Ac = sparse.COO.from_numpy(dA)
     Ac.enable_caching()
-    F = sparse.COO.from_numpy(dF)
     G = sparse.GCXS.from_numpy(dA, compressed_axes=(0,))
     G3 = sparse.GCXS.from_numpy(dC, compressed_axes=(1,))
     Dn = dB.astype(np.float64)
-    ops = {"A": A, "A2": A2, "B": B, "C": C, "Cc": Cc, "Ac": Ac, "F": F, "G": G, "G3": G3, "Dn": Dn}
+    # a DOK that really holds explicitly stored fill values (only a conversion from an array that stores them produces one), a plain DOK,
+    # a GCXS with stored fill values, an operand with a NaN
+    stz = (dF != 0) | (rng.random(size=dF.shape) < 0.3)
+    stz[0, 0] = True
+    dF[0, 0] = 0.0
+    Cz = sparse.COO(np.argwhere(stz).T.copy(), dF[stz], shape=dF.shape, prune=False, sorted=True, has_duplicates=False)
+    Ds, Dp, Gz = sparse.DOK.from_coo(Cz), sparse.DOK.from_numpy(dA), sparse.GCXS.from_coo(Cz, compressed_axes=(1,))
+    dN = dB.astype(np.float64)
+    dN[1, 1] = np.nan
+    N = sparse.COO.from_numpy(dN)
+    F = sparse.COO.from_numpy(dF)
+    ops = {"A": A, "A2": A2, "B": B, "C": C, "Cc": Cc, "Ac": Ac, "F": F, "G": G, "G3": G3, "Dn": Dn, "Ds": Ds, "Dp": Dp, "Gz": Gz, "Cz": Cz, "N": N}
     perms = [(1, 0, 2), (2, 1, 0), (0, 2, 1), (1, 2, 0), (2, 0, 1)]
     shapes = [(6, 4), (2, 12), (24,), (4, 6), (3, 8)]
     calls = [
@@ -636,6 +661,28 @@ def make_world(seed):
         ("shape:T-cached", lambda o: o["Ac"].T),
         ("shape:concat", lambda o: sparse.concatenate([o["A"], o["A2"]], axis=1)),
         ("shape:roll", lambda o: sparse.roll(o["C"], 2, axis=1)),
+        # reads of shared DOK arrays (conversions, indexing, element-wise, reshape: all through DOK.asformat / the dictionary)
+        ("dok:todense", lambda o: o["Ds"].todense()),
+        ("dok:asformat-coo", lambda o: o["Ds"].asformat("coo")),
+        ("dok:asformat-gcxs", lambda o: o["Ds"].asformat("gcxs")),
+        ("dok:getitem", lambda o: o["Ds"][1:, ::2]),
+        ("dok:fancy-getitem", lambda o: o["Ds"][[0, 3, 1], [0, 4, 1]]),
+        ("dok:add", lambda o: o["Ds"] + o["Ds"]),
+        ("dok:sum", lambda o: o["Ds"].to_coo().sum(axis=0)),
+        ("dok:reshape", lambda o: o["Ds"].reshape((5, 4))),
+        ("dok:plain-todense", lambda o: o["Dp"].todense()),
+        ("dok:plain-mul", lambda o: o["Dp"] * 2),
+        ("dok:mixed", lambda o: o["Dp"] + o["A"]),
+        # GCXS / COO operands with explicitly stored fill values
+        ("gcxs:stored-fill-sum", lambda o: o["Gz"].sum(axis=0)),
+        ("gcxs:stored-fill-change-axes", lambda o: o["Gz"].change_compressed_axes((0,))),
+        ("gcxs:change-axes", lambda o: o["G3"].change_compressed_axes((2,))),
+        ("coo:stored-fill-reshape", lambda o: o["Cz"].reshape((5, 4))),
+        # calls that merely WARN when run alone: their result has a non-finite fill value / an operand holds a NaN
+        ("warn:reciprocal", lambda o: 1.0 / o["F"]),
+        ("warn:log", lambda o: np.log(o["F"])),
+        ("warn:self-divide", lambda o: o["G"] / o["G"]),
+        ("warn:matmul-nan", lambda o: sparse.matmul(o["A"], o["N"])),
     ]
     calls += [(f"transpose:cached{p}", (lambda o, p=p: o["Cc"].transpose(p))) for p in perms]
     calls += [(f"reshape:cached{s}", (lambda o, s=s: o["Cc"].reshape(s))) for s in shapes]
@@ -643,36 +690,41 @@ def make_world(seed):
     return ops, calls
 
 
-def outcome13(thunk):
-    """c11.outcome, but a RuntimeError keeps its message (the finding's region is defined on it)"""
-    from c11 import outcome
+def raw13(thunk):
+    """what a worker thread does with a call: run it, keep the result or the exception.  Nothing else — in particular no
+    warnings.catch_warnings() and no np.errstate(): the harness's threads must not edit the process-global filter list themselves, and
+    NumPy must be allowed to emit its warnings (the MAIN thread installs one "ignore" filter around the whole concurrent phase)"""
+    try:
+        return ("ok", thunk())
+    except Exception as e:  # noqa: BLE001
+        return ("err", e)
 
-    box = {}
 
-    def inner():
-        try:
-            return thunk()
-        except RuntimeError as e:
-            box["e"] = e
-            raise
+NEW_CALLS = ("dok:", "gcxs:", "coo:stored", "warn:")
 
-    o = outcome(inner)[0]
-    return ("err", f"RuntimeError: {box['e']}") if "e" in box else o
+
+def outcome13(raw):
+    """comparable form (type, shape, dtype, fill value, every element / the exception with its message), computed by the main thread"""
+    import c13_shared
+
+    return c13_shared.canon(*raw)
 
 
 def baseline_of(seed):
     """sequential outcomes on a private copy of the world"""
-    from c11 import outcome
-
     ops, calls = make_world(seed)
-    return {name: outcome13(lambda f=f: f(ops)) for name, f in calls}
+    with warnings.catch_warnings():
+        warnings.simplefilter("ignore")
+        return {name: outcome13(raw13(lambda f=f: f(ops))) for name, f in calls}
 
 
 def stress_traced(ctx, rng, mode):
-    from c11 import diff_snap, outcome, snapshot
+    from c11 import diff_snap, snapshot
 
-    base = baseline_of(ctx.seed)  # also compiles every kernel the calls need
-    n_sched = 60 if ctx.quick else 1500
+    baseline_of(ctx.seed)
+    base = baseline_of(ctx.seed)  # (the first pass compiles every kernel the calls need)
+    n_new = 16 if ctx.quick else 400
+    n_sched = (60 if ctx.quick else 1500) + n_new
     stats = {"schedules": 0, "quanta": 0, "calls": 0, "switches": 0, "deadline_s": 0.0}
 
     def wanted(code):
@@ -691,10 +743,13 @@ def stress_traced(ctx, rng, mode):
         snaps = {k: snapshot(v) for k, v in ops.items()}
         nth = int(rng.choice([2, 2, 3, 4, 6, 8, 12, 16]))
         per = 1 if nth > 8 else int(rng.integers(1, 4))
-        if rng.random() < 0.5:  # a cache-heavy mix
+        first_gen = [c for c in calls if not c[0].startswith(NEW_CALLS)]
+        if j >= n_sched - n_new:  # the last schedules: DOK / stored-fill / warning calls, mixed with conversions and shape calls that edit the filters
+            pool = [c for c in calls if c[0].startswith(NEW_CALLS + ("convert:gcxs", "convert:tocoo", "shape:concat", "index:gcxs", "reshape:cached"))]
+        elif rng.random() < 0.5:  # a cache-heavy mix
             pool = [c for c in calls if c[0].startswith(("transpose:cached", "reshape:cached", "dot:tensordot", "convert:chain"))]
         else:
-            pool = calls
+            pool = first_gen
         progs = [[pool[int(rng.integers(len(pool)))] for _ in range(per)] for _ in range(nth)]
         if rng.random() < 0.6:
             pol, pname = PCT(rng, nth, int(rng.integers(2, 6)), est), "pct"
@@ -705,7 +760,8 @@ def stress_traced(ctx, rng, mode):
         try:
             with warnings.catch_warnings():
                 warnings.simplefilter("ignore")
-                outs = coop.run([[(lambda f=f: outcome13(lambda: f(ops))) for _, f in p] for p in progs])
+                outs = coop.run([[(lambda f=f: raw13(lambda: f(ops))) for _, f in p] for p in progs])
+                outs = [[(tag, outcome13(got) if tag == "ok" else got) for tag, got in o] for o in outs]
         except SchedulerTimeout as e:
             ctx.broke("infrastructure:scheduler", str(e))
             return
@@ -720,7 +776,7 @@ def stress_traced(ctx, rng, mode):
                 stats["calls"] += 1
                 if tag != "ok":
                     got = ("err", "harness:" + type(got).__name__)
-                if got != base[name]:
+                if got != base[name]:  # (tag is raw13's own tag: the call's exception, if any, is inside `got`)
                     detail = f"thread {ti} call {name}: concurrently {_short(got)}; alone {_short(base[name])}"
                     c2 = dict(case, call=name, deterministic=True, mode=mode)
                     ctx.fail("C", "stress", c2, detail, finding=findings.classify(PID, "stress", c2, detail))
@@ -738,8 +794,9 @@ def _short(o):
 def child_main(seed, quick):
     """free-running threads in a fresh process; prints one JSON line"""
     sys.path.insert(0, str(Path(__file__).resolve().parent))
-    from c11 import diff_snap, outcome, snapshot
+    from c11 import diff_snap, snapshot
 
+    warnings.simplefilter("ignore")  # once, by the main thread, before any worker exists
     rng = gen.rng_for(seed, "C13-free")
     sys.setswitchinterval(1e-5)
     rounds = 6 if quick else 150
@@ -760,9 +817,7 @@ def child_main(seed, quick):
         def work(i):
             bar.wait()
             for name, f in progs[i]:
-                with warnings.catch_warnings():
-                    warnings.simplefilter("ignore")
-                    outs[i].append((name, outcome13(lambda f=f: f(ops))))
+                outs[i].append((name, raw13(lambda f=f: f(ops))))
 
         ths = [threading.Thread(target=work, args=(i,), daemon=True) for i in range(nth)]
         for t in ths:
@@ -778,6 +833,7 @@ def child_main(seed, quick):
         for i, o in enumerate(outs):
             for name, got in o:
                 ncalls += 1
+                got = outcome13(got)
                 if got != base[name]:
                     fails.append({"round": r, "threads": nth, "thread": i, "call": name, "got": _short(got), "alone": _short(base[name])})
         for k, v in ops.items():
@@ -838,30 +894,55 @@ def run(ctx):
         "can orphan a deque when two threads race; values stay correct; exercised by the stress legs only)",
         "scheduling points of the traced scheduler are source lines: a real CPython 3.12 thread switch happens at a subset of them (calls, backward jumps)",
         "leg C3 (free-running threads) is uncontrolled and therefore only supportive",
+        "the process starts with a warnings filter list without harmful entries (Python's default): an entry is harmful iff its action is 'error' and it has no message or "
+        "matches a warning of the catalogue; a transient or lasting 'ignore' entry (can_store, density, html_table) can only make another thread lose a warning and is recorded, not reported",
+        "quick tier: the sentinel worker stops starting cases when its 40 s budget is spent (coverage then depends on the machine's load; every reported failure was observed)",
     ]
-    core.prove(ctx, PID, uses=[])
+    import c13_shared
+
+    core.prove(ctx, PID, uses=["sharedState"])
     rng = gen.rng_for(ctx.seed, PID)
+    sentinels = c13_shared.start_sentinels(ctx)
     free = start_free(ctx)
+    tl = ctx.notes.setdefault("timeline_s", {"proved": round(time.time() - ctx.t0, 1)})
+
+    def timed(name, f, *a):
+        t = time.time()
+        r = f(*a)
+        tl[name] = round(time.time() - t, 1)
+        return r
+
     try:
-        mode = leg_cache(ctx, rng)
-        leg_memo(ctx, rng)
+        mode = timed("cache", leg_cache, ctx, rng)
+        timed("memo", leg_memo, ctx, rng)
+        harm = c13_shared.Harm(ctx)
+        timed("models", c13_shared.leg_models, ctx, gen.rng_for(ctx.seed, "C13-models"), harm)  # (own stream: the stress schedules stay what they were)
         if mode is not None:
-            stress_traced(ctx, rng, mode)
+            timed("stress_traced", stress_traced, ctx, rng, mode)
+        timed("preempt", c13_shared.preempt_leg, ctx, harm)
     except BaseException:
         free[1].kill()
+        for _, pr in sentinels[1]:
+            pr.kill()
         raise
     witness = any(f.get("finding") == "F-cache-iter" and f["family"] == "cache-schedule" for f in ctx.failures)
-    collect_free(ctx, free, mode or "live", witness)
+    timed("wait_free", collect_free, ctx, free, mode or "live", witness)
+    timed("wait_sentinel", c13_shared.collect_sentinels, ctx, sentinels)
     ce, me = ctx.notes.get("cache_exploration", {}), ctx.notes.get("memo_exploration", {})
-    ctx.cov["transitions"] = ce.get("fine_steps", 0) + me.get("quanta", 0)
-    ctx.cov["traces_validated_against_impl"] = ce.get("runs", 0) + me.get("runs", 0)
+    de, fe = ctx.notes.get("dict_exploration", {}), ctx.notes.get("filter_exploration", {})
+    ctx.cov["transitions"] = ce.get("fine_steps", 0) + me.get("quanta", 0) + de.get("quanta", 0) + fe.get("quanta", 0)
+    ctx.cov["traces_validated_against_impl"] = ce.get("runs", 0) + me.get("runs", 0) + de.get("runs", 0) + fe.get("runs", 0)
     ctx.cov["rule"] = (
         "A:cache:<method>:<config> = one complete interleaving of 2 threads around the lookup loop of COO.transpose / COO.reshape on a shared "
         "cache-enabled array (all interleavings enumerated depth-first for the configurations empty / one-entry / hit / same-key / both-hit; "
         "`sampled` = random schedules for 2-4 threads, 0-3 initial entries, 1-2 calls per thread), replayed on the real code by the traced "
         "scheduler and on the Lean model, compared per quantum; A:memo:* likewise for _memoize_dtype.wrapped; C:stress-traced = one PCT or "
         "random-walk schedule over every executed line of sparse/ for 2-16 threads x 1-3 whole operations on shared operands vs the sequential "
-        "baseline; non-trivial = the schedule actually switches between threads; distinct by content hash (configuration + schedule)")
+        "baseline; non-trivial = the schedule actually switches between threads; distinct by content hash (configuration + schedule); "
+        "A:dict:<config> / A:filters:<config> = one complete interleaving of DOK.todense / asformat / __setitem__ at the lines touching self.data, resp. of can_store "
+        "blocks and a warning call at the lines of the with-block, on the real code and on the model; C:sentinel:<table>:<operation>:<format> = one read operation run "
+        "alone under instrumentation (non-trivial = an operand has an element); C:preempt:<kinds> = one schedule `thread 0 for k quanta, thread 1 to the end, thread 0 to "
+        "the end` (or the non-nested four-phase order) on the shared world, every executed line of sparse/ a scheduling point")
 
 
 def replay(ctx, path):
@@ -875,6 +956,16 @@ def replay(ctx, path):
         rig = CacheRig(cache_sites())
         coop, outs, keys, vals_ok = rig.run(c["dq0"], c["progs"], Explicit(c["schedule"]))
         print("replayed schedule:", describe(outs, rig, c["progs"]), "deque", keys, "values_ok", vals_ok, file=sys.stderr)
+    if f and f.get("family") == "preempt" and isinstance(f.get("case"), dict) and f["case"].get("phases"):
+        # a preemption schedule on the shared world: (thread, quanta) phases over every executed line of sparse/ — re-run alone first
+        import c13_shared
+
+        c = f["case"]
+        with warnings.catch_warnings():
+            warnings.simplefilter("ignore")
+            r = c13_shared.run_shared(int(rep.get("seed", ctx.seed)), [p[0] for p in c["progs"]], [tuple(ph) for ph in c["phases"]], post=c.get("post"))
+        print("replayed preemption schedule:", [c13_shared.short(o) for o in r["outs"]], "storage changes", r["storage"], "global changes", r["global"],
+              "post", r["post"] and c13_shared.short(r["post"]), file=sys.stderr)
     ctx.seed, ctx.tier = int(rep.get("seed", ctx.seed)), rep.get("tier", ctx.tier)
     ctx.quick = ctx.tier == "quick"
     run(ctx)
